@@ -19,7 +19,7 @@ def run_repair(acc, start, dna_digits, k, vt, indel, heap):
     kw = dict(has_indel=bool(indel))
     if vt:
         kw["vt_check"] = impl.dna(vt)
-    kw["heap_size"] = 1e9 if heap == 0 else heap
+    kw["heap_size"] = 1e9 if heap == -1 else heap
     r = impl.call(dsw.repair_dna, s, acc, start, k, _budget=len(s) + 1, _alarm=60, **kw)
     o = {"out": cf.outcome(r), "cands": [], "det": 0, "flag": False, "count": 0, "visited": 0, "ticks": r["ticks"], "shape": False}
     if r["out"] == "ok":
